@@ -159,6 +159,36 @@ def run_faults(cfg, out, props=None, tag="C05", profiles_pool=None, extra=None):
                         w.step()
                     w.net.filters.remove(f)
                 total += 1
+            # --- a guaranteed message whose first carrying datagrams are lost while a burst of > 256 newer messages
+            #     from the same sender gets through before the retransmission (the 256-message window moves past it)
+            for _ in range(2):
+                side = r.choice(["client", "server"])
+                ep = c if side == "client" else run.sconn(c)
+                if ep is None or not run.open(c):
+                    break
+                size = r.choice([r.randint(11, 200), P.MAX_PAYLOAD_SIZE + r.randint(1, 900)])
+                rec = run.app.send(ep, side, size, -1, api=r.choice(["send_guaranteed", "send"]), with_cb=True)
+                if rec.get("nmsgs"):
+                    seqs = [(rec["msgseq_first"] - 1 + i) % 65535 + 1 for i in range(rec["nmsgs"])]
+
+                    class FirstN(KthLoss):
+                        def __call__(self, direction, addr, datagram, info):
+                            if direction == self.direction:
+                                dec = L.decode_datagram(datagram, self.conn.session_key_bytes)
+                                if dec.ok and any(s in self.msgseqs for s, t, p in dec.msgs) and self.seen < self.k:
+                                    self.seen += 1
+                                    self.run.c.inc("targeted_data_drops")
+                                    return "drop"
+                            return None
+                    f = FirstN(run, rec["conn"], seqs, r.randint(2, 6), "c2s" if side == "client" else "s2c")
+                    w.net.filters.append(f)
+                    for _t in range(r.randint(8, 14)):
+                        for _k in range(40):
+                            run.app.send(ep, side, r.choice([11, 12, 13]), 0, with_cb=False)
+                        w.step()
+                    run.c.inc("burst_after_loss_scenarios")
+                    w.step(r.randint(30, 90))
+                    w.net.filters.remove(f)
             # --- storm
             pool = profiles_pool or ["lossy", "dup", "reorder", "slow", "acks-lost", "hostile", "very-slow"]
             profiles = [r.choice(pool) for _ in range(r.randint(1, 4))]
@@ -195,7 +225,7 @@ def finish(tier, seed, results):
     inconclusive = []
     need(m["counters"], ["guaranteed_sends", "guaranteed_delivered", "sizes_tried", "targeted_data_drops", "targeted_ack_drops",
                          "runs_connection_open", "delivered_to_server", "delivered_to_client", "net_lost_c2s", "net_lost_s2c",
-                         "net_duplicated_c2s", "net_reordered_s2c"], inconclusive)
+                         "net_duplicated_c2s", "net_reordered_s2c", "burst_after_loss_scenarios"], inconclusive)
     cov = {
         "evaluations": m["evaluations"],
         "distinct_nontrivial": m["distinct_nontrivial"],
